@@ -13,6 +13,10 @@ Three sections, all driving the real `emit_batcher` code:
    tokio multi-thread worker, `block_on` of a multi-thread runtime, current-thread runtime (and a
    few more) × channel states. A panic is a violation; not returning within 100·T + 10 s is a
    violation (deadlock); everything else about time is unconstrained.
+4. **overstay** (`overstay`, native, wall clock with T = 1.2 s): a blocked `blocking_send` / async
+   `send` is woken at 25 / 50 / 75 % of its timeout (or at all three), loses the freed slot to a
+   competing watcher and nothing more is taken: it must give up at about its ORIGINAL deadline
+   (later than T + max(T/2, 500 ms) in 3 of 3 repetitions is a violation).
 3. **worker termination** (`join`, native): receivers started with `sync::spawn` / `tokio::spawn`
    finish (the `JoinHandle` joins) after the sender is dropped, having delivered what was queued
    and fired outstanding callbacks. Not joining within the watchdog is *inconclusive*.
@@ -2007,6 +2011,299 @@ mod threads {
         }
     }
 
+    // -----------------------------------------------------------------------
+    // overstay: a blocking send that is woken part-way through its timeout and finds the channel
+    // full again must still give up at about its ORIGINAL deadline
+    // -----------------------------------------------------------------------
+
+    #[derive(Clone, Copy, Debug, PartialEq, Eq, Hash)]
+    pub enum Flavour {
+        SyncBlocking,
+        #[cfg(feature = "tokio")]
+        TokioBlocking,
+        #[cfg(feature = "tokio")]
+        TokioAsync,
+    }
+
+    impl Flavour {
+        pub fn all() -> Vec<Flavour> {
+            #[allow(unused_mut)]
+            let mut v = vec![Flavour::SyncBlocking];
+            #[cfg(feature = "tokio")]
+            v.extend([Flavour::TokioBlocking, Flavour::TokioAsync]);
+            v
+        }
+
+        pub fn name(self) -> &'static str {
+            match self {
+                Flavour::SyncBlocking => "sync::blocking_send",
+                #[cfg(feature = "tokio")]
+                Flavour::TokioBlocking => "tokio::blocking_send",
+                #[cfg(feature = "tokio")]
+                Flavour::TokioAsync => "tokio::send",
+            }
+        }
+
+        fn call(self, sender: &Sender<Chan>, item: u64, t: Duration) -> Result<(), Option<u64>> {
+            let res = match self {
+                Flavour::SyncBlocking => emit_batcher::sync::blocking_send(sender, item, t),
+                #[cfg(feature = "tokio")]
+                Flavour::TokioBlocking => emit_batcher::tokio::blocking_send(sender, item, t),
+                #[cfg(feature = "tokio")]
+                Flavour::TokioAsync => {
+                    let rt = tokio::runtime::Builder::new_current_thread().enable_all().build().unwrap();
+                    rt.block_on(emit_batcher::tokio::send(sender, item, t))
+                }
+            };
+            res.map_err(|e| e.into_retryable())
+        }
+    }
+
+    #[derive(Clone, Copy, Debug, PartialEq, Eq, Hash)]
+    pub enum Wake {
+        At25,
+        At50,
+        At75,
+        At25And50And75,
+    }
+
+    impl Wake {
+        pub const ALL: [Wake; 4] = [Wake::At25, Wake::At50, Wake::At75, Wake::At25And50And75];
+
+        pub fn name(self) -> &'static str {
+            match self {
+                Wake::At25 => "25%",
+                Wake::At50 => "50%",
+                Wake::At75 => "75%",
+                Wake::At25And50And75 => "25%+50%+75%",
+            }
+        }
+
+        fn fractions(self) -> &'static [f64] {
+            match self {
+                Wake::At25 => &[0.25],
+                Wake::At50 => &[0.5],
+                Wake::At75 => &[0.75],
+                Wake::At25And50And75 => &[0.25, 0.5, 0.75],
+            }
+        }
+    }
+
+    const OVERSTAY_T: Duration = Duration::from_millis(1200);
+    const OVERSTAY_REPS: usize = 3;
+    const OVERSTAY_ITEM: u64 = 424_242;
+
+    enum Rep {
+        Ok(Duration),
+        Overstayed(String),
+        NotMeaningful(String),
+    }
+
+    /// The competitor: a watcher registered before the blocked sender's own; when the receiver
+    /// takes the batch it wins every freed slot (and, for several wake-ups, registers itself again).
+    fn competitor(sender: Arc<Sender<Chan>>, cap: usize, more: usize, refilled: Arc<AtomicU64>) -> Box<dyn FnOnce() + Send> {
+        Box::new(move || {
+            for k in 0..cap as u64 {
+                if sender.try_send(50_000 + 100 * more as u64 + k).is_ok() {
+                    refilled.fetch_add(1, Ordering::SeqCst);
+                }
+            }
+            if more > 0 {
+                let next = competitor(sender.clone(), cap, more - 1, refilled);
+                sender.when_empty(next);
+            }
+        })
+    }
+
+    fn overstay_rep(r: &mut Report, flavour: Flavour, wake: Wake, cap: usize) -> Rep {
+        let t = OVERSTAY_T;
+        let limit = t + std::cmp::max(t / 2, Duration::from_millis(500));
+        let fractions = wake.fractions();
+        let (sender, receiver) = bounded::<Chan>(cap);
+        let sender = Arc::new(sender);
+        // a scripted receiver, polled by hand: every processor call stays Pending until the monitor
+        // lets it go, so the receiver takes exactly one batch per wake-up and nothing in between
+        let stalled = Arc::new(std::sync::atomic::AtomicBool::new(false));
+        let calls = Arc::new(AtomicU64::new(0));
+        struct Held(Arc<std::sync::atomic::AtomicBool>);
+        impl Future for Held {
+            type Output = Result<(), BatchError<Chan>>;
+            fn poll(self: Pin<&mut Self>, cx: &mut Context<'_>) -> Poll<Self::Output> {
+                if self.0.load(Ordering::SeqCst) {
+                    cx.waker().wake_by_ref();
+                    Poll::Pending
+                } else {
+                    Poll::Ready(Ok(()))
+                }
+            }
+        }
+        let mut exec = {
+            let (stalled, calls) = (stalled.clone(), calls.clone());
+            Box::pin(receiver.exec(
+                |_d: Duration| YieldOnce::new(),
+                move |_batch: Chan| {
+                    calls.fetch_add(1, Ordering::SeqCst);
+                    stalled.store(true, Ordering::SeqCst);
+                    Held(stalled.clone())
+                },
+            ))
+        };
+        for k in 0..cap as u64 {
+            sender.send(10 + k);
+        }
+        let refilled = Arc::new(AtomicU64::new(0));
+        sender.when_empty(competitor(sender.clone(), cap, fractions.len() - 1, refilled.clone()));
+        // the blocked sender
+        let started: Done<Instant> = Done::new();
+        let done: Done<(Result<Result<(), Option<u64>>, String>, Duration)> = Done::new();
+        {
+            let (s, started, done) = (sender.clone(), started.clone(), done.clone());
+            let _ = thread::Builder::new().name("c08_overstay".into()).spawn(move || {
+                let start = Instant::now();
+                started.set(start);
+                let res = catch(|| flavour.call(&s, OVERSTAY_ITEM, t));
+                done.set((res, start.elapsed()));
+            });
+        }
+        let a_start = match started.wait(Duration::from_secs(10)) {
+            Some(s) => s,
+            None => return Rep::NotMeaningful("the blocked sender thread never started".into()),
+        };
+        let mut woke_at = Vec::new();
+        let mut on_schedule = true;
+        for (k, f) in fractions.iter().enumerate() {
+            // its watcher must be registered behind the competitor's
+            let mut registered = false;
+            while a_start.elapsed() < t.mul_f64(*f) {
+                if sender.verif_snapshot().on_take >= 2 {
+                    registered = true;
+                    break;
+                }
+                thread::sleep(Duration::from_millis(1));
+            }
+            on_schedule &= registered;
+            if let Some(left) = t.mul_f64(*f).checked_sub(a_start.elapsed()) {
+                thread::sleep(left);
+            }
+            // take exactly one batch: let the held call (if any) finish, poll until the next call
+            stalled.store(false, Ordering::SeqCst);
+            let want = k as u64 + 1;
+            for _ in 0..8 {
+                if calls.load(Ordering::SeqCst) >= want {
+                    break;
+                }
+                let _ = poll_once(exec.as_mut());
+            }
+            let at = a_start.elapsed();
+            on_schedule &= calls.load(Ordering::SeqCst) == want && at < t.mul_f64(*f + 0.12);
+            woke_at.push(at);
+        }
+        let out = done.wait(Duration::from_secs(60));
+        // shut down: the sender goes, the receiver drains
+        drop(sender);
+        stalled.store(false, Ordering::SeqCst);
+        for _ in 0..400 {
+            stalled.store(false, Ordering::SeqCst);
+            if poll_once(exec.as_mut()).is_ready() {
+                break;
+            }
+        }
+        let (res, elapsed) = match out {
+            Some(o) => o,
+            None => return Rep::NotMeaningful("the blocked sender did not return within the watchdog".into()),
+        };
+        if !on_schedule || refilled.load(Ordering::SeqCst) != (cap * fractions.len()) as u64 {
+            r.observe("overstay:setup-not-meaningful", 1);
+            return Rep::NotMeaningful(format!("set-up off schedule (woken at {:?}, {} slots won by the competitor)", woke_at, refilled.load(Ordering::SeqCst)));
+        }
+        r.observe("overstay:woken-before-T-and-lost-the-slot", fractions.len() as u64);
+        match res {
+            Ok(Err(Some(OVERSTAY_ITEM))) if elapsed > limit => Rep::Overstayed(format!(
+                "woken at {:?} on a channel that was full again, returned Err after {:?} with a timeout of {:?} (limit {:?})",
+                woke_at, elapsed, t, limit
+            )),
+            Ok(Err(Some(OVERSTAY_ITEM))) => Rep::Ok(elapsed),
+            other => Rep::NotMeaningful(format!("unexpected result {:?}", other)),
+        }
+    }
+
+    fn overstay_cell(r: &mut Report, flavour: Flavour, wake: Wake, cap: usize) {
+        r.eval();
+        let case = json!({"section": "overstay", "flavour": flavour.name(), "woken_at": wake.name(), "capacity": cap, "timeout_ms": OVERSTAY_T.as_millis() as u64});
+        let mut details = Vec::new();
+        for _ in 0..OVERSTAY_REPS {
+            // the scenario runs a watcher that calls back into the channel on the polling thread:
+            // bound it so that a deadlock in there cannot hang the monitor
+            let mut child = r.child();
+            let rep = run_bounded("c08_overstay_rep", Duration::from_secs(90), move || {
+                let rep = overstay_rep(&mut child, flavour, wake, cap);
+                (rep, child)
+            });
+            match rep {
+                None => {
+                    r.inconclusive(format!("overstay {} {}: a repetition did not finish within 90 s", flavour.name(), wake.name()));
+                    return;
+                }
+                Some((rep, child)) => {
+                    r.merge(child);
+                    match rep {
+                        Rep::Ok(elapsed) => {
+                            r.observe("overstay:returned-at-about-the-original-deadline", 1);
+                            r.observe("overstay:ms-after-T", elapsed.saturating_sub(OVERSTAY_T).as_millis() as u64);
+                            r.nontrivial(&("overstay", flavour, wake, cap));
+                            return;
+                        }
+                        Rep::NotMeaningful(why) => {
+                            r.inconclusive(format!("overstay {} {}: {}", flavour.name(), wake.name(), why));
+                            return;
+                        }
+                        Rep::Overstayed(d) => details.push(d),
+                    }
+                }
+            }
+        }
+        let mut case = case;
+        case["repetitions"] = json!(details);
+        r.violation(
+            &format!("C08:blocking-send-overstays-timeout:{}:woken-at={}", flavour.name(), wake.name()),
+            &format!(
+                "a blocked send that was woken part-way through its timeout and lost the freed slot gave up long after its original deadline ({} of {} repetitions): {}",
+                OVERSTAY_REPS, OVERSTAY_REPS, details[0]
+            ),
+            case,
+        );
+    }
+
+    /// Start every overstay cell on its own thread (they mostly sleep).
+    pub fn overstay_start(r: &Report, args: &Args) -> Vec<(String, Done<Report>)> {
+        let caps: Vec<usize> = if args.thorough() { vec![1, 2, 3] } else { vec![1, 2] };
+        let mut out = Vec::new();
+        for flavour in Flavour::all() {
+            for wake in Wake::ALL {
+                for &cap in &caps {
+                    let mut child = r.child();
+                    let d: Done<Report> = Done::new();
+                    let d2 = d.clone();
+                    let _ = thread::Builder::new().name("c08_overstay_cell".into()).spawn(move || {
+                        overstay_cell(&mut child, flavour, wake, cap);
+                        d2.set(child);
+                    });
+                    out.push((format!("{} {} cap {}", flavour.name(), wake.name(), cap), d));
+                }
+            }
+        }
+        out
+    }
+
+    pub fn overstay_collect(r: &mut Report, cells: Vec<(String, Done<Report>)>) {
+        for (name, d) in cells {
+            match d.wait(Duration::from_secs(300)) {
+                Some(child) => r.merge(child),
+                None => r.inconclusive(format!("overstay cell {} did not come back within the watchdog", name)),
+            }
+        }
+    }
+
     /// Section 3: worker threads terminate after the sender is dropped.
     pub fn termination(r: &mut Report, args: &Args) {
         let seed = args.seed;
@@ -2300,6 +2597,9 @@ fn main() {
                     a.seed = cseed;
                     if section == "ctx" {
                         threads::matrix(&mut r, &a);
+                    } else if section == "overstay" {
+                        let cells = threads::overstay_start(&r, &a);
+                        threads::overstay_collect(&mut r, cells);
                     } else {
                         threads::termination(&mut r, &a);
                     }
